@@ -603,6 +603,51 @@ def run(ctx: fw.Ctx):
     # reference them), so everything that runs later in this process makes gc.collect() slower
     c10_registry.run(ctx)
     observe(ctx, program_stream(ctx), correspond=True)
+    target_through_identifier(ctx)
+
+
+def target_through_identifier(ctx: fw.Ctx):
+    """The edit target itself can be a name (`let a = {…}; in a`, `… in pkgs.mk a`): which set is edited
+    is an identifier resolution like any other — the innermost binder under Nix lexical scoping, also
+    when a wrapper (parenthesis, lambda, assert) stands between two layers that bind the name."""
+    from nix_manipulator import parse
+    from nix_manipulator.cli import manipulations as M
+
+    from ..gen import docs
+    from ..layout import leaves_of
+    from ..oracle import cstread
+
+    for name, text in docs.SPECIAL_DOCS:
+        root = cstread.ts_parse(text)
+        tgt = cstread.find_target(root)
+        ctx.case({"doc": text, "target-through-identifier": name}, True)
+        if tgt is None:
+            continue
+        # the value of `x` inside the designated set
+        bs = [c for c in tgt.named_children if c.type == "binding_set"]
+        xb = next((b for b in (bs[0].named_children if bs else []) if b.type == "binding"
+                   and b.child_by_field_name("attrpath").text.decode() == "x"), None)
+        if xb is None:
+            continue
+        v = xb.child_by_field_name("expression")
+        bb = text.encode()
+        want = (bb[:v.start_byte] + b"7" + bb[v.end_byte:]).decode()
+        for via in ("set_value", "mapping"):
+            try:
+                if via == "set_value":
+                    out = M.set_value(parse(text), "x", "7")
+                else:
+                    src = parse(text)
+                    src["x"] = 7
+                    out = src.rebuild()
+            except Exception as exc:  # noqa: BLE001
+                out = f"<raises {type(exc).__name__}: {exc}>"
+            tw = [t for (_k, t, _s, _e) in leaves_of(want)[0]]
+            to = [t for (_k, t, _s, _e) in leaves_of(out)[0]] if not out.startswith("<raises") else None
+            if tw != to:
+                ctx.fail({"clause": "target-identifier", "shape": name, "via": via},
+                         {"doc": text, "ops": [["set", "x", "7"]], "output": out, "expected": want},
+                         f"edit of the set the body name denotes on {text!r} ({via}): got {out!r}, expected {want!r}")
 
 
 def _real_program(args):
